@@ -539,6 +539,12 @@ func shape(v ssa.Value, d int) string {
 		return "<" + core.TypeName(x.Type()) + ">"
 	case *ssa.FreeVar:
 		return "<" + core.TypeName(x.Type()) + ">"
+	case *ssa.Lookup:
+		return "lookup(" + shape(x.X, d+1) + "," + shape(x.Index, d+1) + ")"
+	case *ssa.Slice:
+		return "slice(" + shape(x.X, d+1) + ")"
+	case *ssa.Convert:
+		return shape(x.X, d+1)
 	}
 	return "<" + core.TypeName(v.Type()) + ">"
 }
